@@ -16,12 +16,19 @@
    if it is a full matching, else the diagonal): the theorems hold for ALL answers.
    Multisets with repeated elements are outside the domain (open finding D36: the matcher's node-keyed dictionaries
    collapse duplicates); so are FixedKeyDictNodeEdits whose children's initial upper bounds exceed the edit's own
-   cost_upper_bound (a computed guard inside initO; it never failed on any generated document).
-   Classes validated by trace only (holds_C04 on the implementation's recorded traces, no model):
-   IterativeTighteningSearch, PossibleEdits. *)
+   cost_upper_bound (a computed guard inside initO).  For documents without multisets (dictionary strategy none) the guard
+   is PROVED to pass when the target holds no null leaf, or when every list has the default options (C04_docs_none:
+   unconditional contract); outside these two conditions it is false (C04_guard_refuted; on the real code the edit
+   invalidates itself and diff() raises ValueError: open finding D41).  For mappings under auto / match (MultiSetEdit as a
+   child of a FixedKeyDictNodeEdit cannot come from files; a MultiSetEdit's initial upper bound, the sum of the largest row
+   maxima of its matcher, is not bounded by the sizes of the two nodes) C04_docs stays conditional on the computed guard.
+   IterativeTighteningSearch (C04_search): the contract for the model of search.py in SearchModel.v (tied to the code by
+   C17's trace correspondence), over any finite collection of items whose own bounds are sound and strictly shrink on
+   every True (schedules), for all heap tie-break hints.  PossibleEdits delegates bounds()/tighten_bounds() to its search;
+   the pruning of invalid alternatives in its `valid` property is not modelled (validated by trace only). *)
 From Coq Require Import ZArith List Bool.
-Require Import GT.Data GT.EdEngine GT.ScriptModel GT.MachineSpec GT.MachineModel GT.MachineCore GT.MachineColl GT.MachineMatch
-               GT.MachineProofs.
+Require Import GT.Data GT.EdEngine GT.ScriptModel GT.MachineSpec GT.MachineGuardSpec GT.MachineModel GT.MachineCore GT.MachineColl
+               GT.MachineMatch GT.MachineProofs GT.MachineGuard.
 Import ListNotations.
 Open Scope Z_scope.
 
@@ -118,6 +125,59 @@ Theorem C04_docs_trace : forall orc a b s, initO orc a b = Some s ->
   holds_events (trace_of (UM (sheight s)) (S (S (Z.to_nat (width (bndU s))))) s) = true.
 Proof. exact model_trace_holds. Qed.
 
+(* Documents whose mappings are all FixedKeyDictNodes (no_mset): the budget guard of every FixedKeyDictNodeEdit passes,
+   i.e. initO is total, and the initial upper bound of a.edits(b) is within  size a + size b + const, under either
+   sufficient condition (MachineGuardSpec.v): text_slack 0 b - no leaf of the target prints longer than its total_size,
+   i.e. the target holds no null - or lists_default a && text_slack 4 b - default list options, null prints as "None". *)
+Theorem C04_guard_bound_no_null : forall orc a b, wf a = true -> wf b = true -> no_mset a = true -> no_mset b = true ->
+  is_kvp a = is_kvp b -> text_slack 0 b = true ->
+  exists s, initO orc a b = Some s /\ snd (bndU s) <= size a + size b + 1.
+Proof. exact guard_none_nonull. Qed.
+Theorem C04_guard_bound_default_lists : forall orc a b, wf a = true -> wf b = true -> no_mset a = true -> no_mset b = true ->
+  is_kvp a = is_kvp b -> lists_default a = true -> text_slack 4 b = true ->
+  exists s, initO orc a b = Some s /\ snd (bndU s) <= size a + size b + 4.
+Proof. exact guard_none_default_lists. Qed.
+
+(* ... hence the contract without the computed guard; budget_safe a b = text_slack 0 b || (lists_default a && text_slack 4 b) *)
+Theorem C04_docs_none : forall orc a b, wf a = true -> wf b = true -> no_mset a = true -> no_mset b = true ->
+  is_kvp a = is_kvp b -> budget_safe a b = true ->
+  exists s, initO orc a b = Some s /\ Contract (UM (sheight s)) s /\ snd (bndU s) <= size a + size b + 4.
+Proof. exact docs_none_contract. Qed.
+
+(* Outside both conditions the guard is false (open finding D41): {"": ["","","",""]} -> {"": [null,null,null,null]} as
+   FixedKeyDictNodes with allow_list_edits = False.  The key/value pair edit costs exactly 16 (four Match("" -> null) of cost
+   levenshtein("", "None") = 4) while cost_upper_bound = 7 + 1 + 7 = 15, so the pair is outside the domain of initO; the
+   real EditCollection.bounds() sets valid = False, answers Range() and diff() raises ValueError. *)
+Theorem C04_guard_refuted :
+  wf ex_guard_a = true /\ wf ex_guard_b = true /\ no_mset ex_guard_a = true /\ no_mset ex_guard_b = true /\
+  is_kvp ex_guard_a = is_kvp ex_guard_b /\ null_as_None ex_guard_b = true /\ text_slack 4 ex_guard_b = true /\
+  budget_safe ex_guard_a ex_guard_b = false /\
+  size ex_guard_a + 1 + size ex_guard_b = 15 /\
+  (forall orc, exists s, initO orc (Kvp false ex_estr (Lst false true [ex_estr; ex_estr; ex_estr; ex_estr]))
+                                   (Kvp false ex_estr (Lst false true [ex_null; ex_null; ex_null; ex_null])) = Some s /\
+                         bndU s = (16, 16)) /\
+  (forall orc, initO orc ex_guard_a ex_guard_b = None).
+Proof. exact guard_refuted. Qed.
+
+(* IterativeTighteningSearch as a machine: bounds() = sbounds s m, tighten_bounds() = search_tighten fuel s m.
+   search_step_ok V Inv measure s m r s' m'  (MachineSearch.v) =  Inv s' m'  /\  contains (sbounds s m) (sbounds s' m')
+   /\  lo (sbounds s m) <= V <= hi (sbounds s m)  /\  (r = true -> sbounds s' m' <> sbounds s m)
+   /\  (r = false -> sbounds s m = point V /\ sbounds s' m' = sbounds s m)  /\  (r = true -> measure s' m' < measure s m).
+   Items are schedules (SearchSpec.v): wf_sched = proper ranges, each contained in the previous, the last one a single
+   value; strict_sched = consecutive ranges differ (the item itself never answers True without a change).  V is the
+   minimum of the items' final values; hints = the adversary's heap tie-breaks: arbitrary. *)
+Require Import GT.BoundsSpec GT.SearchSpec GT.SearchModel GT.MachineSearch.
+Theorem C04_search : forall (items : list schedule) (hints : list nat),
+  items <> [] -> Forall (fun s => wf_sched s = true) items -> Forall strict_sched items ->
+  exists (Inv : sst -> ms -> Prop) (V : Z) (measure : sst -> ms -> nat),
+    Inv (mkS (Some (seq 0 (length items))) [] [] hints) (mkMs items []) /\
+    (exists b, (b < length items)%nat /\ fin_at items b = V /\
+               forall i, (i < length items)%nat -> V <= fin_at items i) /\
+    forall s m, Inv s m -> forall fuel, (fuel_for items <= fuel)%nat ->
+      exists r s' m', search_tighten fuel s m = Done (r, s', m') /\
+                      search_step_ok V Inv measure s m r s' m'.
+Proof. exact search_contract. Qed.
+
 Print Assumptions C04_trace.
 Print Assumptions C04_terminates.
 Print Assumptions C04_const.
@@ -135,3 +195,8 @@ Print Assumptions C04_matcher.
 Print Assumptions C04_multiset.
 Print Assumptions C04_docs.
 Print Assumptions C04_docs_trace.
+Print Assumptions C04_guard_bound_no_null.
+Print Assumptions C04_guard_bound_default_lists.
+Print Assumptions C04_docs_none.
+Print Assumptions C04_guard_refuted.
+Print Assumptions C04_search.
